@@ -120,8 +120,8 @@ impl World for MpmcWorld {
     fn enum_configs(&self, tier: Tier) -> Vec<(Cfg, usize)> {
         let mut v = Vec::new();
         if tier == Tier::Quick {
-            v.push((Cfg { flavour: FL_CHECKED, mode: 0, x: 0, y: BUF_ARRAY, k: 2 }, 5));
-            v.push((Cfg { flavour: FL_CHECKED, mode: 0, x: 1, y: BUF_ARRAY, k: 2 }, 5));
+            v.push((Cfg { flavour: FL_CHECKED, mode: 0, x: 0, y: BUF_ARRAY, k: 2 }, 6));
+            v.push((Cfg { flavour: FL_CHECKED, mode: 0, x: 1, y: BUF_ARRAY, k: 2 }, 6));
         } else {
             for x in 0..=2u8 {
                 v.push((Cfg { flavour: FL_CHECKED, mode: 0, x, y: BUF_ARRAY, k: 2 }, 8));
